@@ -96,11 +96,9 @@ MidOf(T, e, j) ==
   LET cfg == MCfg(T.mg[j])
   IN IF j \notin MgsAfter(T, e) THEN OkCs(<<>>)
      ELSE CASE e.op = "new" ->
-            IF T.mg[j].src = 0 THEN MgrNew(RawSlice(T, 1, e.b), cfg)
-            ELSE \* a Hexital timeframe manager starts from copies of the default manager's
-                 \* candles (after its own tasks) with raw values recovered, no tag, no readings
-                 LET d == MgrNew(RawSlice(T, 1, e.b), MCfg(T.mg[T.mg[j].src]))
-                 IN IF ~d.ok THEN d ELSE MgrNew(RawCopies(d.cs), cfg)
+            \* every manager that exists from construction on -- the default one and those of members
+            \* with a timeframe of their own -- starts from the candles as they were given
+            MgrNew(RawSlice(T, 1, e.b), cfg)
        [] e.op = "add" ->
             IF j \in mgs THEN OkCs(st[j]) ELSE MgrNew(RawCopies(st[T.mg[j].src]), cfg)
        [] e.op = "append" -> MgrAppend(st[j], RawSlice(T, e.a, e.b), cfg)
@@ -255,7 +253,6 @@ TwinFindings(tw, post) ==
 DefApplies(T, j) ==
   LET m == T.mg[j]
   IN /\ ~(m.fill /\ m.ha) /\ ~(m.ha /\ m.life >= 0 /\ m.tf # 0)
-     /\ (m.src = 0 \/ (T.mg[m.src].tf = 0 /\ ~T.mg[m.src].ha /\ T.mg[m.src].life < 0))
      /\ m.late = 0     \* a manager created later starts from what the default one still holds
 DefFindings(T, j, k, postj) ==
   IF ~DefApplies(T, j) \/ k = 0 THEN {}
